@@ -309,9 +309,38 @@ class ServerEnv:
         self.unverified = hashlib.sha384(b'never downloaded').hexdigest()
         self.env.run(self.env.storage.add_blobs((self.unverified, 100, 1000, 0), finished=False))
 
+    def factory(self):
+        """the protocol factory the real BlobServer.start_server hands to loop.create_server (idle 30 s, transfer 60 s)"""
+        if getattr(self, '_factory', None) is None:
+            from lbry.blob_exchange.server import BlobServer
+            loop, got = self.loop, {}
+
+            class Listening:
+                async def __aenter__(self):
+                    return self
+
+                async def __aexit__(self, *a):
+                    return False
+
+                async def serve_forever(self):
+                    await loop.create_future()
+
+            async def create_server(protocol_factory, host=None, port=None, **kw):
+                got['f'] = protocol_factory
+                return Listening()
+            loop.create_server = create_server
+            with loop:
+                server = BlobServer(loop, self.env.blob_manager, 'bQEaw42GXsgCAGio1nxFncJSyRmnztSCjP', idle_timeout=30.0, transfer_timeout=60.0)
+                server.start_server(1, '127.0.0.1')
+            loop.drain(jobs=True, timers=False, limit=100_000, stop=lambda: 'f' in got)
+            if 'f' not in got:
+                raise MachineryError('BlobServer.start_server did not ask the loop for a listening socket')
+            self._server, self._factory = server, got['f']
+        return self._factory
+
     def connect(self, peer=('9.8.7.6', 5555)):
         with self.loop:
-            proto = self.cls(self.loop, self.env.blob_manager, 'bQEaw42GXsgCAGio1nxFncJSyRmnztSCjP', idle_timeout=30.0, transfer_timeout=60.0)
+            proto = self.factory()()
             tr = FakeTransport(self.loop, proto, peername=peer)
             proto.connection_made(tr)
         return proto, tr
@@ -436,7 +465,8 @@ def server_leg(ctx, recs):
                              'stray': any(v['kind'] == 'stray-bytes' for v in verdicts), 'garbage': garbage,
                              'expected_serves': expected, 'served': served,
                              'first_garbage_closed': closed_now if garbage else True, 'closed_at_ms': closed_at,
-                             'idle_limit_ms': 30_000 + 60_000, 'escaped': escaped + esc2, 'served_again': served_again,
+                             # nothing to transfer on this connection: the idle timeout alone bounds it; otherwise idle + transfer
+                             'idle_limit_ms': 30_000 if expected == 0 else 30_000 + 60_000, 'escaped': escaped + esc2, 'served_again': served_again,
                              'sent_for_unheld': any(u in ('Rn', 'Ru') for u in stream) and any(v['kind'] == 'blob' for v in verdicts) and
                              not any(u in ('R', 'Rbig', 'R2') for u in stream), 'ev': []})
                 ctx.count(('server', tuple(stream), k), nontrivial=True)
